@@ -139,6 +139,14 @@ def run_check(prop, tier):
             proof_problems.append(f"extra obligations crashed: {e!r}")
     if xo != xd:
         proof_problems.append(f"generated obligations not discharged: {xinfo}")
+    if tier == "thorough" and ok_build and (C.COQ / "Props" / f"{pid}.vo").exists():
+        # independent re-check of the property file and everything it depends on, with the axiom summary
+        rc, out = C.sh(f"timeout 1800 coqchk -silent -o -Q . EG EG.Props.{pid}", cwd=C.COQ, timeout=1830)
+        summary = out[out.find("CONTEXT SUMMARY"):] if "CONTEXT SUMMARY" in out else out[-1500:]
+        ax = [l.strip() for l in summary.splitlines() if l.strip().startswith("* Axioms")]
+        cov["coqchk"] = {"exit": rc, "axioms": ax, "summary": summary[-1200:]}
+        if rc != 0 or not any("<none>" in a for a in ax):
+            proof_problems.append("coqchk did not accept the property file with an empty axiom list: " + summary[-400:])
     cov["obligations"] = len(names) + xo
     cov["discharged"] = (closed if not bad_src else 0) + xd
     cov["theorems"] = names
